@@ -390,6 +390,22 @@ func (a *Act) appendOne(st *State, s Val, v Val, elem types.Type, pos string) Va
 	ls := vc.define("app_len", SortInt, sLen(s.Term))
 	newLen := vc.define("app_nl", SortInt, add(ls, "1"))
 	fits := vc.define("app_fits", SortBool, app("<=", newLen, sCap(s.Term)))
+	if !a.dry && vc.proveNow(st.reach, fits) {
+		// provably within capacity: a plain in-place store
+		res := vc.define("app_res", SortSlice, mkSlice(sArr(s.Term), sOff(s.Term), newLen, sCap(s.Term)))
+		flat := flattenVal(v)
+		for i, ec := range a.elemComps(elem) {
+			if i >= len(flat) {
+				a.unsup("append of composite element")
+				break
+			}
+			cs := arrSort(arrSort(ec.S))
+			cur := vc.comp(st.mem, ec.C, cs)
+			a.frameCheckRef(st, ec.C, sArr(s.Term), pos)
+			vc.setComp(st.mem, ec.C, cs, sto(cur, sArr(s.Term), sto(sel(cur, sArr(s.Term)), add(sOff(s.Term), ls), flat[i].Term)))
+		}
+		return Val{Sort: SortSlice, T: s.T, Term: res}
+	}
 	pre := st.mem.clone()
 	nr := a.newRef(st, "app_arr")
 	ncap := vc.declare("app_cap", SortInt)
